@@ -447,6 +447,8 @@ impl<'a> Interpreter<'a> {
                             }
 
                             match callable {
+                                // a method of a receiver that failed fails the same way
+                                _ if value.is_err() => stack.push_val(value),
                                 RsCallable::Function(func) => {
                                     stack.push_val(self.call_with_args(args, |a| func(value, a))?);
                                 }
